@@ -1,19 +1,22 @@
 package checks
 
 import (
+	"context"
 	"encoding/json"
 	"fmt"
 	"math/rand"
 	"strings"
+	"sync"
 
 	"github.com/formancehq/ledger/verifharness/core"
+	"github.com/formancehq/ledger/verifharness/memstore"
 	"github.com/formancehq/ledger/verifharness/sim"
 )
 
 func init() {
 	core.Register(&core.Check{
 		ID: "C32", Level: "exploration",
-		Rule: "random bulks of 1-40 self-identifying elements (creates by postings / script tagged with their index, metadata writes, reverts, metadata deletes; failing elements — insufficient funds, unknown transaction, missing metadata key — injected at random positions; dependent pairs where element k+1 spends what element k received) posted to POST /v2/{ledger}/_bulk as application/json and as the json-stream content type with options {none, atomic, continueOnFailure, parallel, parallel+continueOnFailure, atomic+parallel}; oracle: one result per element, result i describes element i, atomic = all or nothing, sequential stop-after-first-failure, continueOnFailure applies every non-failing element, successful create results equal the submitted element; the ledger snapshot must agree with the reported results. Parallel bulks also run under the race detector. Distinct = (options, handler, element-kind vector, failure positions); non-trivial = bulk has >=2 elements and >=1 failing element or dependent pair",
+		Rule: "random bulks of 1-40 self-identifying elements (creates by postings / script tagged with their index, metadata writes, reverts, metadata deletes; failing elements — insufficient funds, unknown transaction, missing metadata key — injected at random positions; dependent pairs where element k+1 spends what element k received; ADD_METADATA of a key followed by DELETE_METADATA of the same key on the same account / transaction in the same bulk, one bulk in three of the atomic ones built around such pairs followed by a failing element) posted to POST /v2/{ledger}/_bulk as application/json and as the json-stream content type with options {none, atomic, continueOnFailure, parallel, parallel+continueOnFailure, atomic+parallel}; oracle: one result per element, result i describes element i, atomic = all or nothing, sequential stop-after-first-failure, continueOnFailure applies every non-failing element, successful create results equal the submitted element; the ledger snapshot must agree with the reported results (including: a bulk that committed something leaves the ledger in use, like the same write on its own); a sequential bulk is the only request in flight, so any lock its own statements have to wait for (memstore lock table: holder = a session of the same request that waits for nothing) is a self-deadlock: reported, never waited out. Parallel bulks also run under the race detector. Distinct = (options, handler, element-kind vector, failure positions); non-trivial = bulk has >=2 elements and >=1 failing element or dependent pair",
 		Assumptions: []string{seqAssume},
 		Run:  func(r *core.Run) { runC32(r, "C32") },
 	})
@@ -32,6 +35,16 @@ func c32Gen(rng *rand.Rand, n int, allowDep bool) []c32El {
 	var els []c32El
 	for i := 0; i < n; i++ {
 		tag := fmt.Sprintf("el:%d", i)
+		if allowDep && i+1 < n && rng.Intn(8) == 0 {
+			// a key added and deleted again by the same bulk: the delete must see the add
+			if rng.Intn(2) == 0 {
+				els = append(els, c32AccountPair(i)...)
+			} else {
+				els = append(els, c32TxPair(i)...)
+			}
+			i++
+			continue
+		}
 		x := rng.Intn(100)
 		switch {
 		case x < 35:
@@ -68,6 +81,83 @@ func c32Gen(rng *rand.Rand, n int, allowDep bool) []c32El {
 	return els
 }
 
+func c32AccountPair(i int) []c32El {
+	return []c32El{
+		{Kind: "add-own-account-meta", Logs: 1,
+			JSON: fmt.Sprintf(`{"action":"ADD_METADATA","data":{"targetType":"ACCOUNT","targetId":"pair:%d","metadata":{"pk":"%d"}}}`, i, i)},
+		{Kind: "delete-own-account-meta", Dep: true, Logs: 1,
+			JSON: fmt.Sprintf(`{"action":"DELETE_METADATA","data":{"targetType":"ACCOUNT","targetId":"pair:%d","key":"pk"}}`, i)},
+	}
+}
+
+func c32TxPair(i int) []c32El {
+	return []c32El{
+		{Kind: "add-tx-meta-key", Logs: 1,
+			JSON: fmt.Sprintf(`{"action":"ADD_METADATA","data":{"targetType":"TRANSACTION","targetId":1,"metadata":{"pk%d":"%d"}}}`, i, i)},
+		{Kind: "delete-tx-meta-key", Dep: true, Logs: 1,
+			JSON: fmt.Sprintf(`{"action":"DELETE_METADATA","data":{"targetType":"TRANSACTION","targetId":1,"key":"pk%d"}}`, i)},
+	}
+}
+
+func c32FailingEl(rng *rand.Rand, i int) c32El {
+	switch rng.Intn(3) {
+	case 0:
+		return c32El{Kind: "revert-unknown", Fails: true, JSON: fmt.Sprintf(`{"action":"REVERT_TRANSACTION","data":{"id":%d}}`, 900000+i)}
+	case 1:
+		return c32El{Kind: "delete-missing-meta", Fails: true, JSON: fmt.Sprintf(`{"action":"DELETE_METADATA","data":{"targetType":"TRANSACTION","targetId":1,"key":"absent%d"}}`, i)}
+	}
+	return c32El{Kind: "create-fail", Tag: fmt.Sprintf("el:%d", i), Fails: true,
+		JSON: fmt.Sprintf(`{"action":"CREATE_TRANSACTION","data":{"postings":[{"source":"nofunds:%d","destination":"el:%d","asset":"USD","amount":5}],"metadata":{"el":"%d"}}}`, i, i, i)}
+}
+
+// c32GenTargeted: bulks built around "delete what an earlier element of the same bulk added"
+// (account and transaction metadata) and around deletions of pre-existing account metadata,
+// with or without a failing element behind them, between 0-2 random elements.
+func c32GenTargeted(rng *rand.Rand) ([]c32El, string) {
+	var els []c32El
+	add := func(more ...c32El) { els = append(els, more...) }
+	random := func(k int) {
+		for _, el := range c32Gen(rng, k, false) {
+			// keep the indices of self-identifying elements unique
+			if strings.HasPrefix(el.Kind, "create") {
+				j := 100 + len(els)
+				el = c32El{Kind: "create", Tag: fmt.Sprintf("el:%d", j), Logs: 1,
+					JSON: fmt.Sprintf(`{"action":"CREATE_TRANSACTION","data":{"postings":[{"source":"world","destination":"el:%d","asset":"USD","amount":7}],"metadata":{"el":"%d"}}}`, j, j)}
+			}
+			if el.Kind == "delete-account-meta" {
+				el.JSON = fmt.Sprintf(`{"action":"DELETE_METADATA","data":{"targetType":"ACCOUNT","targetId":"bank","key":"k%d"}}`, 25+len(els))
+			}
+			add(el)
+		}
+	}
+	random(rng.Intn(3))
+	variant := []string{"pairs+failure", "pairs+failure", "pairs", "delete-existing-first+failure", "account-pair+failure", "tx-pair+failure"}[rng.Intn(6)]
+	switch variant {
+	case "pairs+failure", "pairs":
+		if rng.Intn(2) == 0 {
+			add(c32AccountPair(50)...)
+			add(c32TxPair(51)...)
+		} else {
+			add(c32TxPair(51)...)
+			add(c32AccountPair(50)...)
+		}
+	case "delete-existing-first+failure":
+		els = els[:0]
+		add(c32El{Kind: "delete-account-meta", Logs: 1, JSON: `{"action":"DELETE_METADATA","data":{"targetType":"ACCOUNT","targetId":"bank","key":"k0"}}`})
+		random(rng.Intn(2))
+	case "account-pair+failure":
+		add(c32AccountPair(50)...)
+	case "tx-pair+failure":
+		add(c32TxPair(51)...)
+	}
+	if variant != "pairs" {
+		random(rng.Intn(2))
+		add(c32FailingEl(rng, 60))
+	}
+	random(rng.Intn(2))
+	return els, variant
+}
+
 type c32Result struct {
 	ErrorCode    string          `json:"errorCode"`
 	ErrorDesc    string          `json:"errorDescription"`
@@ -94,6 +184,9 @@ func runC32(r *core.Run, prop string) {
 		workers = 8
 	}
 	r.Floor("bulks_with_failures", int64(n/10))
+	if !r.RaceMode {
+		r.Floor("atomic_bulks_delete_after_add_then_failing_element", int64(n/40))
+	}
 	r.ForEach("bulk", n, workers, func(c *core.Case) {
 		rng := c.Rng
 		opts := optsAll[c.Index%len(optsAll)]
@@ -109,11 +202,15 @@ func runC32(r *core.Run, prop string) {
 		}
 		fresh := c.Index%5 == 3 // bulk as the FIRST write of an initializing ledger
 		els := c32Gen(rng, size, !parallel)
+		targeted := ""
+		if !parallel && !fresh && !r.RaceMode && ((atomic && rng.Intn(3) == 0) || (!atomic && rng.Intn(8) == 0)) {
+			els, targeted = c32GenTargeted(rng)
+		}
 		if fresh {
 			var keep []c32El
 			for _, el := range els {
 				switch el.Kind {
-				case "add-tx-meta", "delete-missing-meta", "delete-account-meta":
+				case "add-tx-meta", "delete-missing-meta", "delete-account-meta", "add-tx-meta-key", "delete-tx-meta-key":
 				default:
 					keep = append(keep, el)
 				}
@@ -157,8 +254,31 @@ func runC32(r *core.Run, prop string) {
 		if opts != "" {
 			path += "?" + opts
 		}
-		resp := e.Do("POST", path, []byte(body), headers)
+		// A sequential bulk is the only request in flight and runs its elements one after the
+		// other: a statement of it that has to wait for a lock waits for a session of the same
+		// request (tagged client 1) which is not itself waiting for anything, i.e. for a
+		// transaction only the waiting goroutine could ever end. Decided from the lock table
+		// when the wait starts; the statement is cancelled instead of hanging the run.
+		var lwMu sync.Mutex
+		var blockedOn []memstore.LockWait
+		var lockTable []string
+		if !parallel {
+			e.C.OnLockWait = func(_ context.Context, w memstore.LockWait) error {
+				lwMu.Lock()
+				defer lwMu.Unlock()
+				if lockTable == nil {
+					lockTable = e.C.DebugLocks()
+				}
+				blockedOn = append(blockedOn, w)
+				return fmt.Errorf("verif: statement cancelled: it waits for lock %q held by session s%d of its own request: %w", w.Key, w.Holder, context.Canceled)
+			}
+		}
+		resp := e.DoCtx(memstore.WithClient(context.Background(), 1), "POST", path, []byte(body), headers)
+		e.C.OnLockWait = nil
 		e.C.Trace = false
+		if len(blockedOn) > 0 {
+			e.C.AbortAll()
+		}
 		after := e.C.Snapshot("l1")
 		// (in a parallel bulk several elements have their own SQL transactions open at once: the
 		// single-operation automaton does not apply there)
@@ -188,6 +308,25 @@ func runC32(r *core.Run, prop string) {
 			r.Count("bulks_with_failures", 1)
 		}
 		r.Count("elements", int64(len(els)))
+		for _, k := range kinds {
+			r.Seen("element_kinds", k)
+		}
+		for i := 1; i < len(els); i++ {
+			if els[i].Kind == "delete-own-account-meta" || els[i].Kind == "delete-tx-meta-key" {
+				failingBehind := false
+				for _, el := range els[i+1:] {
+					failingBehind = failingBehind || el.Fails
+				}
+				r.Count(fmt.Sprintf("bulks_deleting_a_key_added_by_the_same_bulk:%s:atomic=%v:failing_element_behind=%v", map[bool]string{true: "account", false: "transaction"}[els[i].Kind == "delete-own-account-meta"], atomic, failingBehind), 1)
+				if atomic && failingBehind {
+					r.Count("atomic_bulks_delete_after_add_then_failing_element", 1)
+				}
+			}
+		}
+		if targeted != "" {
+			r.Seen("targeted_variants", targeted)
+			r.Count("targeted_bulks", 1)
+		}
 		detail := func(extra map[string]any) map[string]any {
 			d := map[string]any{"options": opts, "handler": handler, "body": body, "status": resp.Status, "response": string(resp.Body)}
 			for k, v := range extra {
@@ -196,6 +335,20 @@ func runC32(r *core.Run, prop string) {
 			return d
 		}
 		sigBase := fmt.Sprintf("%s:%s", map[bool]string{true: "parallel", false: "sequential"}[parallel], handler)
+		if len(blockedOn) > 0 {
+			w := blockedOn[0]
+			sig := "C32/atomic-bulk-element-blocked-on-own-transaction"
+			if !atomic {
+				sig = "C32/sequential-bulk-element-blocked-on-own-request:" + handler
+			}
+			r.Count("bulks_with_a_statement_blocked_on_the_requests_own_session", 1)
+			report(c, sig, detail(map[string]any{
+				"what": fmt.Sprintf("a statement of the bulk (store call %s, session s%d) had to wait for lock %q held by session s%d of the same request (holder in a transaction: %v, holder waiting for: %q): nothing but the waiting goroutine could ever release it; against Postgres the request would hang until a timeout",
+					w.Site, w.Waiter, w.Key, w.Holder, w.HolderInTxn, w.HolderWaitingKey),
+				"lock_waits": blockedOn, "lock_table_at_first_wait": lockTable, "same_logical_client": w.WaiterClient == w.HolderClient,
+			}))
+			return
+		}
 		if atomic && parallel {
 			if resp.Status != 412 {
 				report(c, "C32/atomic-and-parallel-not-refused:"+handler, detail(nil))
@@ -235,7 +388,7 @@ func runC32(r *core.Run, prop string) {
 			if !failed {
 				applied += el.Logs
 				want := map[string]string{"create": "CREATE_TRANSACTION", "create-dependent": "CREATE_TRANSACTION", "create-script": "CREATE_TRANSACTION", "create-fail": "CREATE_TRANSACTION",
-					"add-account-meta": "ADD_METADATA", "add-tx-meta": "ADD_METADATA", "revert-unknown": "REVERT_TRANSACTION", "delete-missing-meta": "DELETE_METADATA", "delete-account-meta": "DELETE_METADATA"}[el.Kind]
+					"add-account-meta": "ADD_METADATA", "add-tx-meta": "ADD_METADATA", "add-own-account-meta": "ADD_METADATA", "add-tx-meta-key": "ADD_METADATA", "delete-own-account-meta": "DELETE_METADATA", "delete-tx-meta-key": "DELETE_METADATA", "revert-unknown": "REVERT_TRANSACTION", "delete-missing-meta": "DELETE_METADATA", "delete-account-meta": "DELETE_METADATA"}[el.Kind]
 				if res.ResponseType != want {
 					report(c, "C32/result-does-not-describe-its-element:response-type:"+sigBase, detail(map[string]any{"index": i, "want": want, "got": res.ResponseType}))
 					return
@@ -260,6 +413,19 @@ func runC32(r *core.Run, prop string) {
 		}
 		newLogs := len(after.Logs) - len(before.Logs)
 		anyFailed := firstFailure >= 0
+		// the same write sent on its own leaves the ledger in use: so must a bulk that applied something
+		if newLogs > 0 {
+			r.Count("bulks_that_committed_something:ledger_was_"+before.State, 1)
+			if after.State != "in-use" {
+				mode := map[bool]string{true: "parallel", false: "sequential"}[parallel]
+				if atomic {
+					mode = "atomic"
+				} else if cont {
+					mode += "+continue-on-failure"
+				}
+				report(c, "C32/bulk-committed-elements-but-ledger-not-in-use:"+mode, detail(map[string]any{"ledger_state_before": before.State, "ledger_state_after": after.State, "new_logs": newLogs, "first_failure": firstFailure}))
+			}
+		}
 		switch {
 		case atomic:
 			if anyFailed && before.Digest() != after.Digest() {
